@@ -23,6 +23,7 @@ def run(tier):
     ck.add(runner.run_slices(b, ["bfs", "type=json", "depth=%d" % d], nslices=n, env=ENV))
     ck.add(runner.run_slices(b, ["bfs", "type=ojson", "depth=%d" % d], nslices=n, env=ENV))
     ck.add(runner.run_slices(b, ["pairs"], nslices=n, env=ENV))
+    ck.add(runner.run_slices(b, ["wide"], nslices=n, env=ENV))
     ck.add(runner.run_slices(b, ["isas"], nslices=1, env=ENV))
     if ck.res.sum.get("bfs_state_cap_hit"):
         ck.exhaustive = False
@@ -48,6 +49,8 @@ def replay(sig):
     rc, out, err = runner.run_cmd([_bin(), "replay", sig], timeout=300, env=ENV)
     r = runner.Result()
     r.feed(out)
-    if r.viol:
+    if sig in r.viol:
+        return True, r.viol[sig]
+    if r.viol and not sig.startswith("W|"):
         return True, list(r.viol.values())[0]
     return False, ""
